@@ -324,7 +324,7 @@ theorem any_pass_attributes {Node} (uses : Entry → Node → Bool) (nodes : Lis
 theorem baseTable_matches :
     fixedOptions = baseTable.map (fun o =>
       (o.flags, (match o.nargs with | .one => "one" | .opt => "opt" | .zero => "zero"),
-       (match o.act with | .append d => "append:" ++ d | .ignore => "ignore" | _ => "?"))) := by decide
+       (match o.act with | .append d => "append:" ++ d | .undefine d => "undefine:" ++ d | .ignore => "ignore" | _ => "?"))) := by decide
 
 /-- the schema still has the two alternatives `Definition.valid` models, and the rule keys `Rule` has -/
 theorem schema_shape :
